@@ -25,6 +25,21 @@ Calibration
   size of each axis (values/shape/dtype/sum(chunks) are still what the statement demands).
 * meshgrid returns a tuple in NumPy 2 and a list before: the container type is not compared.
 
+* Parameter audit: with a float32 scalar as start/stop NumPy derives the linspace grid in float32 (NEP 50) and casts
+  afterwards: values and the returned step are compared at float32 resolution then.  arange gets NumPy scalars of
+  int32/int64/float64 only (dask derives block starts in the argument's precision, NumPy's float64 result is derived in
+  double).  A nested list cannot express a zero-length axis next to other axes (no list input for such *_like cases).
+  ``like=`` is generated for arange and tri only (their signatures name it); da.ones/zeros/full document ``meta=``.
+
+Parameter audit (input classes added after the seeded-defect rounds; each has a counter with a floor): chunks as a bytes
+string ("16 B") and as a dict {axis: size}; explicit irregular chunks with >= 3 blocks and a short block before a longer
+one on the longest axis; axes of 300-900 elements with blocks of more than 255 elements (arange, linspace, eye, tri);
+arange with mixed int/float arguments, NumPy-scalar arguments, stop=/step= keywords, like= (NumPy / dask array);
+linspace with NumPy-scalar start/stop (float32 decides the default dtype); eye with N up to 12; tri with like=;
+diagonal of a NumPy array; meshgrid with 2-d inputs (flattened) and Python scalars; ones/zeros/full/empty with shape as
+ndarray / tuple of NumPy ints / shape= keyword and with meta= (same or another dtype: must not leak); *_like of a nested
+list, of a dask array with unknown chunk sizes (map_blocks path) and with shape= given as an int.
+
 Sibling facet (vf/mon/siblings.py): every case is also built a second time with ONE result-relevant parameter changed
 (another stop / num / endpoint / k / M / offset / dtype / fill value / function / indexing / sparse / chunks).
 The two lazily built collections must not share output keys unless their stand-alone values are equal (label
@@ -51,7 +66,8 @@ RULE = ("cases = (routine, arguments, chunks specification). Complete part: aran
         "1..n+1; tri(n) for n<=5 under every pair of explicit chunkings and every int chunk size. Random part: arange "
         "(neg/fractional/large start, dtype), linspace (endpoint, retstep, dtype, num 0/1), eye (N, M, k, dtype), "
         "diag, diagonal, indices, meshgrid, fromfunction, tri, ones/zeros/full/empty and *_like with dtype/chunks/"
-        "shape overrides; chunks specs int | tuple | 'auto' | -1 | mixed | explicit irregular. non-trivial = the "
+        "shape overrides, like= / meta=, NumPy-scalar and mixed int/float arguments, list / unknown-chunk inputs; chunks specs "
+        "int | tuple | 'auto' | -1 | mixed | bytes | dict | explicit irregular (>= 3 blocks, blocks > 255). non-trivial = the "
         "result (or an input for diag/diagonal/meshgrid) is split into >= 2 chunks on some axis; distinct = distinct "
         "(routine, arguments, chunks).")
 ASSUMPTIONS = ["NumPy 2.x defines the expected values and dtype", "sync scheduler (threads for a tenth)"]
